@@ -198,6 +198,8 @@ class SInt:
     def lift(o):
         if isinstance(o, SInt):
             return o
+        if hasattr(o, "sym") and isinstance(getattr(o, "sym"), SInt):
+            return o.sym          # an int-typed carrier of a symbolic value (class patterns need a real int instance)
         if _is_int(o):
             return SInt(z3.IntVal(int(o)))
         raise Unsupported(f"integer operand {type(o)}")
